@@ -196,7 +196,6 @@ def cut_xzdiff(text):
     m = _must(re.search(r"if test \$# -eq 1; then\s*\n\s*case \$1 in\s*\n(?P<body>.*?)\n\s*esac", text, re.S), "xzdiff: one-operand case")
     body = m.group("body")
     arms1 = []
-    toks = re.findall(r"\n?\s*(?P<pats>[^)\n]*)\)\s*\n(?P<act>(?:(?!\s*[^)\n]*\)\s*\n).*\n?)*?)(?=\s*[^)\n]*\)\s*\n|\Z)", body)
     # simpler, line based: a pattern line ends with ')' ; the following lines up to ';;' are the action
     arms1 = []
     cur = None
@@ -419,9 +418,6 @@ def render(repo):
     bdef("labelFallbackSrc", lb["fallback"], "xzgrep.in  value used when sed fails")
     bdef("labelScriptSrc", lb["script"], "xzgrep.in  `sed_script=` this word")
     w("/-- xzgrep.in:%d  `case $i in` PATTERNS`) uncompress=`CMD`;;` -/" % g["dispatchLine"])
-    w("def grepDispatch : List (Bytes × Bytes) := [\n  " + ",\n  ".join("(%s, %s)  -- %s ) %s" % (lean_bytes(p), lean_bytes(c), p, c) for p, c in g["dispatch"]).replace("),  --", "),  --") + "]")
-    # the trailing comment on the last row would swallow the bracket: re-render safely
-    o.pop()
     rows = ["  (%s, %s)" % (lean_bytes(p), lean_bytes(c)) for p, c in g["dispatch"]]
     w("def grepDispatch : List (Bytes × Bytes) := [\n" + ",\n".join(rows) + "]")
     w("/- rows: " + " ;; ".join("%s ) %s" % (comment_of(p), comment_of(c)) for p, c in g["dispatch"]) + " -/")
